@@ -28,7 +28,7 @@ def strip_comments(src):
 
 
 GENERATOR_DEPS = {'inits': ('C18',), 'callsites': ('C05', 'C06', 'C18'), 'supwiring': ('C08',), 'decisions': ('C04',),
-                  'funcs:checkNComponents': ('C03',), 'funcs:autoSelectInit': ('C20',), 'funcs:checkTupleSize': ('C06',),
+                  'funcs:checkNComponents': ('C03',), 'funcs:autoSelectInit': ('C20',), 'funcs:checkSdpFromEigenGen': ('C20',), 'funcs:checkTupleSize': ('C06',),
                   'funcs:validateCalibrationParams': ('C16',)}
 
 
@@ -149,7 +149,13 @@ def main():
             driver_ok = lean_build(R, a.pid)
             if tier == 'thorough' and R.lean['build_ok']:
                 leanchecker(R, a.pid)
-        mod.run(R, tier, seed, driver_ok)
+        # thorough: the whole generator / oracle / correspondence pass is repeated on further seeds derived from the
+        # given one (cases accumulate in the same verdict and evidence)
+        reps = max(1, int(os.environ.get('VERIF_THOROUGH_SEEDS', '4'))) if tier == 'thorough' else 1
+        seeds = [seed + 104729 * k for k in range(reps)]
+        for sd in seeds:
+            mod.run(R, tier, sd, driver_ok)
+        R.extra['seeds_explored'] = seeds
         rc = R.finish()
     except subprocess.TimeoutExpired:
         traceback.print_exc()
